@@ -111,6 +111,9 @@ Definition emax (a b : Ext F) : Ext F :=
   | Fin x, Fin y => Fin (fmax x y)
   | _, _ => PInf
   end.
+(* np.max of an Ext-valued array (ValueError on an empty one) *)
+Definition vemax (l : list (Ext F)) : res (Ext F) :=
+  match l with [] => Err Dom | x :: t => Ok (fold_left emax t x) end.
 Definition eleb (a : Ext F) (b : F) : bool := match a with Fin x => fleb x b | PInf => false end.
 Definition eltb (a : Ext F) (b : Ext F) : bool :=
   match a, b with Fin x, Fin y => fltb x y | Fin _, PInf => true | PInf, _ => false end.
@@ -118,6 +121,8 @@ Definition eltb (a : Ext F) (b : Ext F) : bool :=
 (* dense matrix = list of columns *)
 Definition mat := list (list F).
 Definition mcol (X : mat) (j : Z) : res (list F) := get_idx X j.
+(* X.shape[0] of a matrix stored as a list of columns; a matrix without columns has no recorded row count (0) *)
+Definition mrows (X : mat) : Z := match X with [] => 0%Z | c :: _ => Z.of_nat (length c) end.
 Definition mget (X : mat) (i j : Z) : res F := bind (get_idx X j) (fun c => get_idx c i).
 Definition mTv (X : mat) (v : list F) : list F := map (fun c => vdot c v) X.   (* X.T @ v *)
 Fixpoint mv_from (acc : list F) (X : mat) (w : list F) : list F :=            (* X @ w *)
